@@ -36,7 +36,7 @@ def make_series(recipe, idx=0):
         seg = int(g.integers(min_seg, 4 * min_seg))
         seg = min(seg, length - t)
         z = g.normal(size=(seg, n))
-        out[t:t + seg] = means[reg] + z @ chol[reg].T
+        out[t:t + seg] = means[reg] + recipe.get("noise", 1.0) * (z @ chol[reg].T)
         t += seg
         reg = int((reg + 1 + g.integers(max(1, regimes - 1))) % regimes)
     scale_exp = recipe.get("scale_exp")
@@ -90,6 +90,8 @@ def scalar_form(form, value):
         return np.int64(value)
     if form == "np.int32":
         return np.int32(value)
+    if form in ("np.int8", "np.int16", "np.uint8", "np.uint16", "np.uint32", "np.uint64", "np.longdouble"):
+        return getattr(np, form[3:])(value)
     raise ValueError(form)
 
 
@@ -229,7 +231,7 @@ def gen_case(prop, seed, profile=None, **over):
         data["shift"] = [r.choice([0.0, 10.0, -100.0, 1000.0]) for _ in range(n)]
     bform = r.choice(p["beta_forms"])
     bval = r.choice(p["beta_values"])
-    if bform in ("int", "np.int64", "np.int32"):
+    if bform in ("int", "np.int64", "np.int32", "np.int8", "np.int16", "np.uint8", "np.uint16", "np.uint32", "np.uint64"):
         bval = int(round(bval))
     lform = r.choice(p["lambda_forms"])
     args = dict(
@@ -275,5 +277,5 @@ def brief(case):
                 P=a["num_processors"], mp=case["mp_switch"],
                 pool={k: v for k, v in case["pool"].items() if k != "choices"},
                 donor=case["donor"]["mode"], faults=case["faults"],
-                knobs={k: d[k] for k in ("scale_exp", "const_sensor", "dup_rows", "layout", "dtype", "shift")
+                knobs={k: d[k] for k in ("scale_exp", "const_sensor", "dup_rows", "layout", "dtype", "shift", "noise")
                        if k in d})
